@@ -27,6 +27,8 @@ LIB_C = ['skinny-internal', 'skinny128-cipher', 'skinny128-ctr', 'skinny128-ctr-
          'mantis-ctr-vec128', 'mantis-parallel', 'mantis-parallel-vec128']
 
 def vec_flag(name):
+    """per-file SIMD flags of src/Makefile"""
+    if 'skinny-internal' in name: return '-mavx2'      # -msse2 -mavx2 in the Makefile; -mavx2 implies SSE2
     return '-mavx2' if 'vec256' in name else '-msse2'
 
 def pre_ll_diff(R):
